@@ -155,6 +155,13 @@ class MaskFlow(MustAnalysis):
                 continue
             args = list(n.args) + [k.value for k in n.keywords if k.arg is not None]
             states = [(a, self.expr_state(a, state.tokens)) for a in args]
+            if (c01.callname(n) or "") in ("check_array", "assert_all_finite", "asarray_chkfinite", "check_X_y") and n.args \
+                    and self.expr_state(n.args[0], state.tokens) == "raw":
+                fin = next((ast.unparse(k.value) for k in n.keywords if k.arg in ("ensure_all_finite", "force_all_finite")), None)
+                if (c01.callname(n) != "check_array") or fin not in ("False", "'allow-nan'", '"allow-nan"'):
+                    self.sinks += 1
+                    self._report(n, n.args[0], state, "a finiteness / value validation of ALL rows inside fit raises (or arms the "
+                                                      "fallback) because of values at unlabeled samples")
             is_fit = self._is_estimator_fit(n)
             has_masked = any(s == "masked" for _, s in states)
             kw = self.fnode.args.kwarg.arg if self.fnode.args.kwarg is not None else None
